@@ -433,7 +433,8 @@ func genHTTP(t *rapid.T) Case {
 		// k*max bytes without a line terminator makes the reader return EOF as an error and the
 		// whole request is answered 500.  Excluded by construction: one more pad byte.
 		last := &q.Lines[len(q.Lines)-1]
-		if q.NoFinalNL && last.length() >= M && last.length()%M == 0 {
+		// (repaired in /repo by a fix: commit; the exclusion stays available for trees without it)
+		if os.Getenv("C10_EXCLUDE_FIXED") != "" && q.NoFinalNL && last.length() >= M && last.length()%M == 0 {
 			if last.Kind == "doc" && last.PadLen > 0 {
 				last.PadLen++
 				for i := range last.Times {
